@@ -451,13 +451,24 @@ def h_expand_delays(eng):
     C18.h_expand(eng, cases=[c for c in C18.CASES if c[3]])
 
 
+def h_simplification_steps_keep_delay_arguments_closed(eng):
+    """every simplification step that removes symbols from the model (the four replace_* steps, eliminable variables, alias
+    detection) hands ALL of them to _substitute_delay_arguments whenever there are delay arguments -- whatever ca.depends_on says
+    about them: a delay argument's graph can mention a symbol its value does not depend on, and a symbol left in the graph makes
+    delay_arguments_function unbuildable.  These are C15's contracts of those steps, run here for their delay obligations."""
+    from . import C15
+    k = eng.choice(3)
+    [C15.h_replace_blocks, C15.h_eliminable_counting, C15.h_alias_counting][k](eng)
+
+
 HARNESSES = [("Model._post_checks", h_post_checks), ("Model._post_checks/no-delays", h_no_delays),
              ("Generator.exitExpression#delay-branch", h_delay_translation),
              ("Model.delay_arguments_function", h_delay_arguments_function), ("api._compile_model", h_compile_calls_post_checks),
              ("Model._substitute_delay_arguments", h_substitute_delay_arguments),
              ("Generator.exitExpression#delay-branch inside a for-loop", h_delay_translation_in_loop),
-             ("Model._expand_vectors on delayed array expressions (delay states and arguments element by element)", h_expand_delays)]
-EXPECTED_COVER = {"post.raises", "post.returns", "post.nodelay", "delay.done", "dafn.done", "compile.done", "subst.done", "delayloop.done", "expand.done"}
+             ("Model._expand_vectors on delayed array expressions (delay states and arguments element by element)", h_expand_delays),
+             ("simplification steps: every removed symbol is substituted in the delay arguments", h_simplification_steps_keep_delay_arguments_closed)]
+EXPECTED_COVER = {"post.raises", "post.returns", "post.nodelay", "delay.done", "dafn.done", "compile.done", "subst.done", "delayloop.done", "expand.done", "count.alias", "count.eliminable"}
 BOUNDED = True
 LEVEL = "proof"
 TRUSTED = ["pyvc VC generator", "z3 5.1.0",
